@@ -73,6 +73,8 @@ struct Th {
     /// the thread's last step exhausted a spin loop (a fair scheduler would now run somebody else)
     yielded: bool,
     spins: u32,
+    /// number of lock-API calls started (part of the abstract state used by the coverage-guided explorer)
+    calls: u32,
 }
 
 struct Shared {
@@ -465,6 +467,7 @@ enum LockObj {
 fn ev_call(me: usize, f: &str) {
     let mut s = lock_shared();
     s.th[me].last_load = None;
+    s.th[me].calls += 1;
     s.log.push(format!("{{\"ev\":\"call\",\"t\":{me},\"fn\":\"{f}\"}}"));
 }
 fn ev_ret(me: usize, f: &str, ok: bool, holding: Option<u8>) {
@@ -773,10 +776,12 @@ enum Chooser {
     Follow(Follow),
     Dfs(Dfs),
     Random(Random),
+    Cover(Cover),
 }
 impl Chooser {
-    fn pick(&mut self, step: usize, choices: &[Choice], last: Option<usize>, yielded: bool) -> Result<usize, String> {
+    fn pick(&mut self, step: usize, choices: &[Choice], last: Option<usize>, yielded: bool, h: u64) -> Result<usize, String> {
         match self {
+            Chooser::Cover(c) => c.pick(h, choices, last),
             Chooser::Follow(f) => f.pick(step, choices),
             Chooser::Dfs(d) => d.pick(step, choices, last, yielded),
             Chooser::Random(r) => r.pick(choices, last),
@@ -828,7 +833,8 @@ fn drive(s: &mut Shared, me: usize) -> Option<Grant> {
         let following = s.diverged.is_none() && step < s.follow_len;
         let idx = if s.diverged.is_none() && (following || s.follow_len == usize::MAX) {
             let mut ch = s.chooser.take().expect("chooser");
-            let r = ch.pick(step, &choices, last, yielded);
+            let h = if matches!(ch, Chooser::Cover(_)) { abs_hash(s) } else { 0 };
+            let r = ch.pick(step, &choices, last, yielded, h);
             s.chooser = Some(ch);
             match r {
                 Ok(i) => Some(i),
@@ -967,6 +973,7 @@ fn run_once(spec: &RunSpec, chooser: Chooser, follow_len: usize) -> (RunResult, 
                 panicked: false,
                 yielded: false,
                 spins: 0,
+                calls: 0,
             })
             .collect();
         s.log = Vec::new();
@@ -1167,36 +1174,48 @@ fn mode_explore(path: &str) {
     let t0 = std::time::Instant::now();
     let stdout = std::io::stdout();
     let mut out = std::io::BufWriter::with_capacity(1 << 20, stdout.lock());
-    let mut dfs = Dfs { stack: Vec::new(), depth_seen: 0, preempt_bound: bound, preempts: 0 };
+    // iterative deepening on the preemption bound: all schedules with 0 preemptions, then all with
+    // exactly 1, ... so that a time/run cap cuts off the highest level only (a plain depth-first
+    // search under a cap would never vary the beginning of the schedules)
     let mut run = 0usize;
     let mut complete = false;
-    loop {
-        dfs.preempts = 0;
-        dfs.depth_seen = 0;
-        let (r, ch) = run_once(&spec, Chooser::Dfs(dfs), usize::MAX);
-        let Chooser::Dfs(d) = ch else { unreachable!() };
-        dfs = d;
-        emit_run(&mut out, run, &spec, "null", "dfs", &r);
-        run += 1;
-        // backtrack
-        dfs.stack.truncate(dfs.depth_seen);
-        while let Some((k, n)) = dfs.stack.last().copied() {
-            if k + 1 < n {
-                let l = dfs.stack.len();
-                dfs.stack[l - 1].0 = k + 1;
+    let mut completed_bound: i64 = -1;
+    'levels: for level in 0..=bound {
+        let mut dfs = Dfs { stack: Vec::new(), depth_seen: 0, preempt_bound: level, preempts: 0 };
+        loop {
+            dfs.preempts = 0;
+            dfs.depth_seen = 0;
+            let (r, ch) = run_once(&spec, Chooser::Dfs(dfs), usize::MAX);
+            let Chooser::Dfs(d) = ch else { unreachable!() };
+            dfs = d;
+            // schedules with fewer preemptions were emitted at the lower levels
+            if dfs.preempts == level {
+                emit_run(&mut out, run, &spec, "null", "dfs", &r);
+                run += 1;
+            }
+            // backtrack
+            dfs.stack.truncate(dfs.depth_seen);
+            while let Some((k, n)) = dfs.stack.last().copied() {
+                if k + 1 < n {
+                    let l = dfs.stack.len();
+                    dfs.stack[l - 1].0 = k + 1;
+                    break;
+                }
+                dfs.stack.pop();
+            }
+            if dfs.stack.is_empty() {
+                completed_bound = i64::from(level);
                 break;
             }
-            dfs.stack.pop();
+            if run >= max_runs || t0.elapsed().as_secs_f64() > max_secs {
+                break 'levels;
+            }
         }
-        if dfs.stack.is_empty() {
+        if level == bound {
             complete = true;
-            break;
-        }
-        if run >= max_runs || t0.elapsed().as_secs_f64() > max_secs {
-            break;
         }
     }
-    writeln!(out, "{{\"ev\":\"explored\",\"runs\":{run},\"complete\":{complete},\"preempt\":{bound}}}").unwrap();
+    writeln!(out, "{{\"ev\":\"explored\",\"runs\":{run},\"complete\":{complete},\"preempt\":{bound},\"complete_up_to\":{completed_bound}}}").unwrap();
     out.flush().unwrap();
 }
 
@@ -1221,6 +1240,108 @@ impl Random {
         }
         Ok(*self.rng.pick(&norm))
     }
+}
+
+/// Abstract state of the real execution as far as the scheduler can see it: the lock words, the
+/// futex queues and, per thread, where it is (pending operation with operands and call site,
+/// parked, finished), what it holds and how far its program has got.
+fn abs_hash(s: &Shared) -> u64 {
+    use std::hash::{Hash, Hasher};
+    let mut h = std::collections::hash_map::DefaultHasher::new();
+    for (i, a) in s.locs.iter().enumerate() {
+        // SAFETY: address of a live shim atomic
+        unsafe { (*(*a as *const CoreAtomicU32)).load(Ordering::SeqCst) }.hash(&mut h);
+        let mut q = s.queues[i].clone();
+        q.sort_unstable();
+        q.hash(&mut h);
+    }
+    for t in 1..s.th.len() {
+        let th = &s.th[t];
+        (th.holding, th.unlocking, th.calls, th.spur_used, th.eintr_used, th.weak_used).hash(&mut h);
+        match &th.state {
+            TState::Announced(Pending::Atomic(op)) => {
+                (1u8, op.kind as u8, s.locs.iter().position(|a| *a == op.addr), op.expect, op.arg, op.site.line(), op.site.column()).hash(&mut h);
+            }
+            TState::Announced(Pending::Wait { addr, expect }) => (2u8, s.locs.iter().position(|a| a == addr), *expect).hash(&mut h),
+            TState::Announced(Pending::Wake { addr, n }) => (3u8, s.locs.iter().position(|a| a == addr), *n).hash(&mut h),
+            TState::Announced(Pending::Data) => 4u8.hash(&mut h),
+            TState::Parked(_) => 5u8.hash(&mut h),
+            TState::Woken => 6u8.hash(&mut h),
+            TState::Finished => 7u8.hash(&mut h),
+            TState::Running => 8u8.hash(&mut h),
+        }
+    }
+    h.finish()
+}
+
+/// Coverage-guided exploration: prefers a (abstract state, choice) pair that has never been taken
+/// (a model-free transition tour of the real code); falls back to a seeded random choice.
+struct Cover {
+    seen: std::collections::HashSet<(u64, String)>,
+    rng: Rng,
+    new_pairs: usize,
+}
+impl Cover {
+    fn pick(&mut self, h: u64, choices: &[Choice], last: Option<usize>) -> Result<usize, String> {
+        let n = choices.len();
+        let rot = self.rng.below(n as u64) as usize;
+        for env_pass in [false, true] {
+            for k in 0..n {
+                let i = (k + rot) % n;
+                let c = &choices[i];
+                let envish = c.is_env() || matches!(c, Choice::GrantFail(_));
+                if envish != env_pass {
+                    continue;
+                }
+                let key = (h, c.json());
+                if !self.seen.contains(&key) {
+                    self.seen.insert(key);
+                    self.new_pairs += 1;
+                    return Ok(i);
+                }
+            }
+        }
+        let mut r = Random { rng: Rng::new(self.rng.next()), env_pct: 5 };
+        r.pick(choices, last)
+    }
+}
+
+fn mode_cover(path: &str) {
+    let v: Value = serde_json::from_str(&std::fs::read_to_string(path).expect("spec")).expect("spec json");
+    let spec = spec_of(&v);
+    let runs = v.get("runs").and_then(Value::as_u64).unwrap_or(100) as usize;
+    let seed = v.get("seed").and_then(Value::as_u64).unwrap_or_else(vharness::seed);
+    let max_secs = v.get("max_secs").and_then(Value::as_f64).unwrap_or(120.0);
+    let stdout = std::io::stdout();
+    let mut out = std::io::BufWriter::with_capacity(1 << 20, stdout.lock());
+    let t0 = std::time::Instant::now();
+    let mut cover = Cover { seen: std::collections::HashSet::new(), rng: Rng::new(seed), new_pairs: 0 };
+    let mut stale = 0;
+    let mut done = 0;
+    let mut saturated = false;
+    for run in 0..runs {
+        if t0.elapsed().as_secs_f64() > max_secs {
+            break;
+        }
+        let before = cover.new_pairs;
+        let (r, ch) = run_once(&spec, Chooser::Cover(cover), usize::MAX);
+        let Chooser::Cover(c) = ch else { unreachable!() };
+        cover = c;
+        emit_run(&mut out, run, &spec, "null", "cover", &r);
+        done += 1;
+        stale = if cover.new_pairs == before { stale + 1 } else { 0 };
+        if stale >= 40 {
+            saturated = true;
+            break;
+        }
+    }
+    writeln!(
+        out,
+        "{{\"ev\":\"explored\",\"runs\":{done},\"complete\":{saturated},\"pairs\":{},\"saturated\":{saturated}}}",
+        cover.new_pairs
+    )
+    .unwrap();
+    out.flush().unwrap();
 }
 
 fn mode_random(path: &str) {
@@ -1566,6 +1687,10 @@ fn main() {
         "random" => {
             verif::install(&HOOKS);
             mode_random(&args[2]);
+        }
+        "cover" => {
+            verif::install(&HOOKS);
+            mode_cover(&args[2]);
         }
         "real" => mode_real(&args[2]),
         _ => {
